@@ -66,22 +66,27 @@ class Lang:
 
     def to_json(self):
         return {"hierarchy": self.h.to_json(), "listed": self.listed,
-                "top": self.top, "bot": self.bot, "noperators": self.noperators}
+                "top": self.top, "bot": self.bot, "noperators": self.noperators,
+                "declared_late": getattr(self, "late", None)}
 
     @staticmethod
     def from_json(d) -> "Lang":
         def tup(t):
             return (t[0], [tup(a) for a in t[1]])
-        return Lang(C.Hierarchy.from_json(d["hierarchy"]), [tup(t) for t in d["listed"]],
+        L = Lang(C.Hierarchy.from_json(d["hierarchy"]), [tup(t) for t in d["listed"]],
             d["top"], d["bot"], d.get("noperators", 1))
+        if d.get("declared_late") is not None:
+            L.late = d["declared_late"]
+        return L
 
     def build(self):
         import transforge.type as T
         from transforge.lang import Language
         from transforge.expr import Operator
         h = self.h
-        ops = h.build()
-        scope = {str(ops[i]): ops[i] for i in h.ids}
+        late = getattr(self, "late", None)
+        ops = h.build(skip={late} if late is not None else ())
+        scope = {str(ops[i]): ops[i] for i in h.ids if i != late}
         base0 = ops[5]
         self.operators = {}
         for k in range(self.noperators):
@@ -93,6 +98,16 @@ class Lang:
         if self.bot:
             canon.append(T.Bottom)
         self.lang = Language(scope=scope, namespace="https://example.com/c10#", canon=canon)
+        if late is not None:
+            # a history: the taxonomy is consulted, THEN a further base type is declared and added,
+            # and the canon expanded again; what follows must describe the language as it is now
+            lang = self.lang
+            for c in list(lang.canon):
+                for tr in (False, True):
+                    list(lang.subtypes(c, transitive=tr))
+                    list(lang.supertypes(c, transitive=tr))
+            lang.add(h.build_late(late))
+            lang.expand_canon()
         return self.lang
 
     def text(self):
@@ -142,7 +157,14 @@ def gen_lang(rng: random.Random, flags=None) -> Lang:
         listed.append((o, [ty(rng.choice([0, 0, 1])) for _ in range(h.arity(o))]))
     if flags is None:
         flags = (rng.random() < 0.5, rng.random() < 0.5)
-    return Lang(h, listed, flags[0], flags[1], rng.randint(0, 2))
+    L = Lang(h, listed, flags[0], flags[1], rng.randint(0, 2))
+    if rng.random() < 0.3:
+        # one leaf base type is declared and added only after the taxonomy has been consulted
+        leaves = [i for i in bases if i != 5 and i not in parents.values() and i in parents
+                  and not any(mentions(t, i) for t in listed)]
+        if leaves:
+            L.late = rng.choice(leaves)
+    return L
 
 
 def gen_interesting(rng: random.Random, flags) -> Lang:
